@@ -14,7 +14,8 @@ RULE = ("Scripted libraries whose ln_prior is an injective function of the row n
         "equal to that row's likelihood, and the second return value equal to the likelihoods of the evaluated rows "
         "in evaluation order. (real kernel) generated problems incl. rows where the K-variance cap binds: every returned "
         "row's ln_likelihood == an independent marginal_ln_likelihood of that row, ln_prior == the stored value. Non-trivial: >=2 returned rows together with a shuffle, a truncation, "
-        "n_linear_samples>1 or a multi-batch file path.")
+        "n_linear_samples>1 or a multi-batch file path."
+        " Also: additive likelihood constants, -inf ln_prior rows, library objects with a previous life, and a 'large' search (16k-131k rows in 2-3 batches, block-wise readers).")
 SHARDS = {"quick": 4, "thorough": 16}
 BUDGET = {"quick": 70, "thorough": 800}
 
